@@ -419,6 +419,19 @@ pub fn stream_run(
     sink_cfg: &SinkCfg,
     keep_going_after_error: bool,
 ) -> StreamRun {
+    stream_run_ext(input, opts, script, sink_cfg, keep_going_after_error, true)
+}
+
+/// `record_steps = false`: do not keep the per-call log (no harness allocations
+/// proportional to the script; used when the heap is being measured).
+pub fn stream_run_ext(
+    input: &[u8],
+    opts: &Opts,
+    script: &[Call],
+    sink_cfg: &SinkCfg,
+    keep_going_after_error: bool,
+    record_steps: bool,
+) -> StreamRun {
     let sink = SharedSink::new(sink_cfg.clone());
     let o = opts.to_lzma();
     let mut steps: Vec<StreamStep> = Vec::new();
@@ -489,12 +502,14 @@ pub fn stream_run(
                 first_err = Some(i);
                 first_err_msg = result.clone().unwrap_err();
             }
-            steps.push(StreamStep {
-                call: call.clone(),
-                result,
-                sink_len_after: sink.len(),
-                input_pos_after: pos,
-            });
+            if record_steps {
+                steps.push(StreamStep {
+                    call: call.clone(),
+                    result,
+                    sink_len_after: sink.len(),
+                    input_pos_after: pos,
+                });
+            }
             if failed && !keep_going_after_error {
                 break;
             }
